@@ -152,6 +152,15 @@ func genC17(gen *sim.Stream, maxDecls int) *c17Input {
 			}
 			// references at block depth 0..2
 			for _, j := range refs[i] {
+				if kinds[j] != "type" && gen.Draw(4) == 0 {
+					// a local of the same name in an inner block (or an if branch) goes out of
+					// scope before the reference below: the reference does count
+					if gen.Draw(2) == 0 {
+						fmt.Fprintf(&body, "\t{\n\t\t%s := 5\n\t\t_ = %s\n\t}\n", names[j], names[j])
+					} else {
+						fmt.Fprintf(&body, "\tif true {\n\t\t%s := 6\n\t\t_ = %s\n\t} else {\n\t\t_ = 7\n\t}\n", names[j], names[j])
+					}
+				}
 				depth := gen.Draw(3)
 				ind := strings.Repeat("\t", depth+1)
 				for k := 0; k < depth; k++ {
